@@ -188,3 +188,28 @@ def gen_pe_files():
                 out.append({"file": {"bytes": list(data)}, "pos": 0, "fkind": "bytesio"})
     out.append({"file": {"bytes": []}, "pos": 0, "fkind": "bytesio"})
     return out
+
+
+def gen_xorencoded_files():
+    """XorEncoded stages (stub, nonce, decoded PE), near misses and plain garbage (small images: the executable
+    spec first_mz is recursive and evaluated for every candidate offset)"""
+    out = []
+    pe64, pe32 = mini_pe(nsections=0)[:200], mini_pe(machine=0x14c, nsections=0)[:200]
+    stubs = [b"", b"\xfc\xe8\x00\x00" + b"\x90" * 9 + b"\xff\xff\xff", b"\xff\xff\xff" + b"\x90" * 5 + b"\xff\xff\xff",
+             b"\xff\xff\xff" + b"\x90" * 5, b"\x41" * 10]
+    for plain in (pe64, pe32, pe64[:80], b"not a pe at all" * 4):
+        for stub in stubs:
+            for nonce in (b"\x11\x22\x33\x44",):
+                data = xorencode(plain, nonce=nonce, stub=stub)
+                out.append({"file": {"bytes": list(data)}, "pos": 0, "fkind": "bytesio"})
+                out.append({"file": {"bytes": list(data + b"\x00" * 5)}, "pos": 2, "fkind": "bytesio"})   # size relation broken: marker only
+    for raw in (b"", b"\xff\xff\xff", b"\xff\xff\xff\x00", pe64, b"\x00" * 20):
+        out.append({"file": {"bytes": list(raw)}, "pos": 0, "fkind": "bytesio"})
+    # the encoded payload itself ends with the marker ff ff ff: a spurious candidate at the very end, tried before the
+    # real one found by the size relation
+    for stub in (b"", b"\x41" * 10):
+        enc = bytearray(xorencode(pe64 + bytes(8), stub=stub))
+        for i in (3, 2, 1):           # choose the last plaintext bytes so that the encoding ends in ff ff ff
+            enc[-i] = 0xFF
+        out.append({"file": {"bytes": list(bytes(enc))}, "pos": 0, "fkind": "bytesio"})
+    return out
